@@ -64,9 +64,11 @@ def run(ctx: Ctx):
         consts = set()
         module_fns = {st.name: st for st in tree.body if isinstance(st, ast.FunctionDef)}
 
-        def uses_deep(f, param, depth=0):
-            """param_uses, following the value into helper functions of the module it is handed to"""
+        def uses_deep(f, param, depth=0, cenv=None):
+            """param_uses, following the value into helper functions of the module it is handed to; every use comes with
+            the name the value has there and the constants the helper's other parameters are bound to at that call"""
             out = []
+            cenv = cenv or {}
             for kind, node in microeval.param_uses(f, param):
                 if kind == "other" and isinstance(node, ast.Call) and isinstance(node.func, ast.Name) \
                         and node.func.id in module_fns and depth < 3:
@@ -75,18 +77,28 @@ def run(ctx: Ctx):
                     kws = [k.arg for k in node.keywords if isinstance(k.value, ast.Name) and k.value.id == param]
                     names = [callee.args.args[i_].arg for i_ in idxs if i_ < len(callee.args.args)] + kws
                     if names and len(names) == len(idxs) + len(kws):
+                        # constants handed to the helper's other parameters (bounds passed down by the validator)
+                        env2 = {}
+                        prm = [a.arg for a in callee.args.args]
+                        for pn, a in list(zip(prm, node.args)) + [(k.arg, k.value) for k in node.keywords if k.arg]:
+                            if pn in names:
+                                continue
+                            try:
+                                env2[pn] = it.eval(a, dict(cenv))
+                            except (AnalysisError, Raised):
+                                pass
                         for nm in names:
-                            out.extend(uses_deep(callee, nm, depth + 1))
+                            out.extend(uses_deep(callee, nm, depth + 1, env2))
                         continue
-                out.append((kind, node))
+                out.append((kind, node, param, cenv))
             return out
-        for kind, node in uses_deep(fn, pval):
+        for kind, node, vname_here, cenv in uses_deep(fn, pval):
             if kind == "compare":
                 for op_node in [node.left] + node.comparators:
-                    if isinstance(op_node, ast.Name) and op_node.id == pval:
+                    if isinstance(op_node, ast.Name) and op_node.id == vname_here:
                         continue
                     try:
-                        c = it.eval(op_node, {})
+                        c = it.eval(op_node, dict(cenv))
                     except (AnalysisError, Raised):
                         raise AnalysisError(f"{P_VALIDATORS}:{node.lineno}: `{pval}` is compared with a non-constant")
                     if not isinstance(c, int) or isinstance(c, bool):
